@@ -46,6 +46,7 @@ type netParams struct {
 	Pre          string      `json:"pre,omitempty"`           // fetch: "shallow-fetch" = an earlier `fetch --depth 1` of an ancestor of the branch left shallow commits behind
 	ShallowLocal int         `json:"shallow_local,omitempty"` // push: this many non-tip commits of the pushed history lack their table locally (a shallow clone)
 	Peel         int         `json:"peel,omitempty"`          // merge: the first argument is spelled b0^ / b0^^ (a commit below the branch, not the branch)
+	TagSlash     bool        `json:"tag_slash,omitempty"`     // the first tag is called release/rel1 (a tag name with a slash in it)
 	Tags2        bool        `json:"tags2,omitempty"`         // a second tag zeta9 (sorting after rel1) that the receiver does not have or has at the same value
 	Shadow       bool        `json:"shadow,omitempty"`        // merge/pull: a second local branch a/<name> exists whose name ends with the merged branch's name
 	TagRel       string      `json:"tag_rel,omitempty"`       // relation forced on the tag: clobber = the receiver's tag sits on an ancestor of the sender's
@@ -188,7 +189,11 @@ func buildNet(c *fw.Case, env *fw.Env, p *netParams, rng *rand.Rand) (*netWorld,
 	}
 	if p.Tags {
 		r := rng.Intn(p.N)
-		pl := branchPlan{Name: "tag:rel1", Relation: []string{"new", "tag-clobber", "equal"}[rng.Intn(3)], Remote: r, Local: -1}
+		tagName := "tag:rel1"
+		if p.TagSlash {
+			tagName = "tag:release/rel1"
+		}
+		pl := branchPlan{Name: tagName, Relation: []string{"new", "tag-clobber", "equal"}[rng.Intn(3)], Remote: r, Local: -1}
 		if p.Narrow && len(w.plans) > 0 {
 			// the tag sits on a commit the requested branch does not reach, where there is one
 			var off []int
